@@ -68,14 +68,23 @@ FUNCTIONAL = [re.compile(p) for p in [
 
 # std higher-order functions that do nothing but (possibly) call the closure they are given: read-only iff that closure is
 HOF_PURE = re.compile(r'^(std::option::Option::<T>::(map|map_or|map_or_else|and_then|is_some_and|is_none_or|unwrap_or_else|unwrap_or|'
-                      r'unwrap_or_default|filter|or_else|zip|or|and|xor)|std::bool::<impl bool>::(then|then_some)|'
-                      r'std::cmp::Ordering::(then_with|then))$')
+                      r'unwrap_or_default|filter|or_else|zip|or|and|xor)|(?:std|core)::bool::<impl bool>::(then|then_some)|'
+                      r'std::cmp::Ordering::(then_with|then)|std::array::<impl \[T; N\]>::map)$')
 
 
 def closure_children(facts, caller, term):
     """local closure bodies named by the `{closure@file:line:col: ..}` generic arguments of a call made by `caller`"""
     out = []
     for a in (term.get('callee') or {}).get('args', []):
+        fi = re.search(r'\{([A-Za-z_][^{}@]*)\}$', a) if a.startswith('fn(') else None
+        if fi:
+            # a fn item used as the callable: a local body (purity known) or a foreign function (judged by the whitelist)
+            path = re.sub(r'::<[^<>]*>$', '', fi.group(1))
+            if path in facts.bodies:
+                out.append(path)
+            elif not foreign_pure(path):
+                return None
+            continue
         m = re.match(r'^\{closure@[^:]+:(\d+):(\d+)', a)
         if not m:
             continue
